@@ -7,6 +7,7 @@ import types
 import typing
 from collections.abc import Callable, Hashable, Iterable, Iterator
 from contextlib import suppress
+from keyword import iskeyword
 
 # noinspection PyProtectedMember
 from dataclasses import _FIELDS  # type: ignore
@@ -169,7 +170,15 @@ def _get_literal_values_str(typ: Type, short: bool) -> str:
     values_str = []
     for value in get_literal_values(typ):
         if isinstance(value, enum.Enum):
-            values_str.append(f"{type_name(type(value), short)}.{value.name}")
+            enum_name = type_name(type(value), short)
+            if (
+                value.name.isascii()
+                and value.name.isidentifier()
+                and not iskeyword(value.name)
+            ):
+                values_str.append(f"{enum_name}.{value.name}")
+            else:
+                values_str.append(f"{enum_name}[{value.name!r}]")
         elif isinstance(
             value,
             (int, str, bytes, bool, NoneType),  # type: ignore
